@@ -55,7 +55,7 @@ def r1_reject_before_create(ctx, prog):
 
 
 def r2_templates(ctx, prog):
-    r = ctx.rule('C13.R2', 'a wrap / unwrap template mismatch never reaches the wrapping / unwrapping step', floor=2, engine='E3')
+    r = ctx.rule('C13.R2', 'a wrap / unwrap template mismatch never reaches the wrapping / unwrapping step; the wrap template is compared with the key being wrapped', floor=3, engine='E3')
     for q, attr, steps, mism in (
             ('SoftHSM::C_WrapKey', 'CKA_WRAP_TEMPLATE', {'WrapKeySym', 'WrapKeyAsym'},
              [(r'attributeExists(@\d+)?\(key,.*first.*\)', False), (r'peekValue@\d+\(', False), (r'operator!=(@\d+)?\(v1,v2\)', True), (r'operator==(@\d+)?\(v1,v2\)', False)]),
@@ -78,6 +78,20 @@ def r2_templates(ctx, prog):
                     bad = (oc, evs[mm[0]][1])
             if st:
                 nreach += 1
+        if q == 'SoftHSM::C_WrapKey':
+            # whose attributes are compared with the template: those of the key that is being wrapped (the object of the hKey argument), entry by entry
+            ho = handle_objects(f)
+            kobj = ho[param_name(f, 3)][0][0]
+            per_entry = [c for c in calls(f['body']) if short(c.get('callee')) in ('getAttribute', 'attributeExists') and c.get('recv') is not None and c.get('args') and 'first' in canon(c['args'][0])]
+            wrong = [c for c in per_entry if canon(c['recv']) != kobj]
+            site2 = '%s entries are compared with the wrapped key' % attr
+            if not per_entry:
+                r.undecided(q, site2, 'no per-entry attribute read found in the template loop', file=f['file'], line=f['line'])
+            elif wrong:
+                r.violation(q, site2, 'the template entry is compared with %s of %s, not of the key being wrapped (%s): a key that violates the wrapping key\'s CKA_WRAP_TEMPLATE is wrapped all the same' % (
+                    short(wrong[0]['callee']), canon(wrong[0]['recv']), kobj), file=f['file'], line=wrong[0]['l'])
+            else:
+                r.ok(q, site2, '%d reads, all on %s' % (len(per_entry), kobj), file=f['file'], line=per_entry[0]['l'])
         site = '%s loop' % attr
         if bad:
             r.violation(q, site, 'the comparison %s decides "mismatch" and the path still reaches %s: the template restriction is not honoured' % (bad[1][:80], '/'.join(sorted(steps))), file=f['file'], line=bad[0]['line'], path=bad[0]['path'])
@@ -429,6 +443,87 @@ def r8_unpad_coverage(ctx, prog):
             show(e1), show(e2), lenv, padv), file=f['file'], line=lp['l'])
 
 
+def r9_branch_agreement(ctx, prog, rule_id='C13.R9'):
+    """Key components are stored through a two-armed idiom: token->encrypt(source, x) when the object is private, x = source otherwise; x is then stored under one attribute.
+    Both arms must take every x from the same source (same accessor of the same object) - a slip in one arm stores, say, dP as CKA_EXPONENT_2 for public objects only."""
+    r = ctx.rule(rule_id, 'the encrypted and the plain arm of every component store read the same source for the same component', floor=80, engine='E7 sibling agreement')
+    for f in sorted(prog.functions.values(), key=lambda g: (g['file'], g['line'])):
+        if f.get('class') != 'SoftHSM':
+            continue
+        enc, plain = {}, {}
+        for n in walk(f['body']):
+            if n.get('k') != 'Call':
+                continue
+            c = short(n.get('callee'))
+            a = n.get('args', [])
+            if c in ('encrypt', 'decrypt') and (n.get('callee') or '').startswith('Token::') and len(a) == 2 and a[1] is not None and a[1].get('k') == 'Var' and a[0] is not None and a[0].get('k') == 'Call':
+                enc.setdefault(a[1]['name'], []).append((canon(a[0]), n['l']))
+            elif c == 'operator=' and n.get('recv') is not None and n['recv'].get('k') == 'Var' and len(a) == 1 and a[0] is not None and a[0].get('k') == 'Call' and a[0].get('recv') is not None:
+                plain.setdefault(n['recv']['name'], []).append((canon(a[0]), n['l']))
+        both = sorted(set(enc) & set(plain))
+        if not both:
+            continue
+        ctx.analysed(f)
+        for x in both:
+            es, ps = {v for v, _ in enc[x]}, {v for v, _ in plain[x]}
+            site = 'component %s' % x
+            # a plain assignment that is not the other arm of the idiom (e.g. a default value assigned before) does not take part: only accessor calls on an object also read in the encrypted arm
+            def obj_of(v):
+                pc = parse_call(v)
+                return pc[1][0] if pc and pc[1] else None
+            objs = {obj_of(v) for v in es}
+            ps2 = {v for v in ps if obj_of(v) in objs}
+            if not ps2:
+                continue
+            if es == ps2:
+                r.ok(f['qname'], site, sorted(es)[0], file=f['file'], line=enc[x][0][1])
+            else:
+                line = [l for v, l in plain[x] if v in ps2 - es] or [l for v, l in enc[x] if v in es - ps2]
+                r.violation(f['qname'], site, 'the arm for private objects fills %s from %s, the arm for public objects from %s: the stored component depends on CKA_PRIVATE' % (x, '/'.join(sorted(es)), '/'.join(sorted(ps2))),
+                            file=f['file'], line=line[0])
+
+
+def r10_complete_fill(ctx, prog, rule_id='C13.R10'):
+    """IVs, AAD, peer public values and derivation data are taken from the caller by 'x.resize(n); memcpy(&x[0], source, m)'.  The value handed on is the caller's value only if
+    m == n on every path: a shorter copy leaves the tail of x zero (an IV whose second half is ignored), a longer one writes past the buffer."""
+    r = ctx.rule(rule_id, 'a buffer sized for the caller\'s value is filled completely: memcpy length == the size it was just given', floor=30, engine='E3 path enumeration, value comparison')
+    for f in sorted(prog.functions.values(), key=lambda g: (g['file'], g['line'])):
+        if f.get('class') != 'SoftHSM':
+            continue
+        ms = [c for c in calls(f['body'], short='memcpy') if len(c.get('args', [])) == 3 and canon(c['args'][0]).startswith('&')]
+        if not ms:
+            continue
+        ctx.analysed(f)
+        o = Outcomes(f, prog, cenv={'isInitialised': 1}, record_calls={'resize', 'memcpy', 'wipe'})
+        o.CAP = 64
+        o.LOOP_ROUNDS = 1
+        o.go()
+        r.paths += len(o.outcomes)
+        res = {}
+        for oc in o.outcomes:
+            evs = oc['events']
+            for i, e in enumerate(evs):
+                if e[0] == 'call' and e[1] == 'memcpy' and e[2][0].startswith('&'):
+                    m = re.fullmatch(r'&operator\[\]\((\w+),0\)', e[2][0])
+                    if not m:
+                        continue
+                    x = m.group(1)
+                    rs = [p for p in evs[:i] if p[0] == 'call' and p[1] in ('resize', 'wipe') and p[2] and p[2][0] == x and len(p[2]) > 1]
+                    if rs:
+                        res.setdefault(e[3], set()).add((x, e[2][2], rs[-1][2][1], rs[-1][3], oc['path']))
+        for line, hits in sorted(res.items()):
+            x = sorted(hits)[0][0]
+            site = 'memcpy into %s@%d' % (x, line)
+            bad = [h for h in hits if h[1] != h[2]]
+            if bad:
+                h = bad[0]
+                r.violation(f['qname'], site, '%s is sized to %s bytes (line %s) but %s bytes are copied into it: %s' % (
+                    x, h[2], h[3], h[1], 'the rest of the buffer stays zero, the value handed on is not the caller\'s' if not (h[1].isdigit() and h[2].isdigit()) or int(h[1]) < int(h[2]) else 'the copy runs past the buffer'),
+                    file=f['file'], line=line, path=h[4])
+            else:
+                r.ok(f['qname'], site, '%s bytes' % sorted(hits)[0][1], file=f['file'], line=line)
+
+
 def run(ctx):
     po = ctx.prog('ossl-file')
     pb = ctx.prog('botan-file')
@@ -441,9 +536,15 @@ def run(ctx):
     r6_caller_iv(ctx, po)
     c10.r3_stripped_length(ctx, [('ossl-file', po), ('botan-file', pb)], rule_id='C13.R7')
     r8_unpad_coverage(ctx, po)
+    r9_branch_agreement(ctx, po)
+    r10_complete_fill(ctx, po)
 
 
 MUTANTS = [
+    dict(name='symdecryptinit-ctr-iv-half-copied', rule='C13.R10', file='src/lib/SoftHSM.cpp', after='CK_RV SoftHSM::SymDecryptInit(',
+         old='memcpy(&iv[0], CK_AES_CTR_PARAMS_PTR(pMechanism->pParameter)->cb, 16);', new='memcpy(&iv[0], CK_AES_CTR_PARAMS_PTR(pMechanism->pParameter)->cb, 8);'),
+    dict(name='getrsaprivatekey-public-arm-reads-prime1-twice', rule='C13.R9', file='src/lib/SoftHSM.cpp', after='CK_RV SoftHSM::getRSAPrivateKey(',
+         old='prime2 = key->getByteStringValue(CKA_PRIME_2);', new='prime2 = key->getByteStringValue(CKA_PRIME_1);'),
     dict(name='unwrap-template-scan-stops-at-first-entry', rule='C13.R2b', file='src/lib/SoftHSM.cpp', after='// Apply the unwrap template',
          old='\t\t\t\t\t\tif (memcmp(attr->pValue, value.const_byte_str(), value.size()) != 0)\n\t\t\t\t\t\t{\n\t\t\t\t\t\t\treturn CKR_TEMPLATE_INCONSISTENT;\n\t\t\t\t\t\t}\n',
          new='\t\t\t\t\t\tif (memcmp(attr->pValue, value.const_byte_str(), value.size()) != 0)\n\t\t\t\t\t\t{\n\t\t\t\t\t\t\treturn CKR_TEMPLATE_INCONSISTENT;\n\t\t\t\t\t\t}\n\t\t\t\t\t\tbreak;\n'),
